@@ -25,7 +25,15 @@ func (g *Gen) binop(op token.Token, a, b Val, rt types.Type, checked bool) Val {
 			}
 		}
 		if isString(a.T) {
-			oos("string comparison")
+			// string equality: equal lengths and equal bytes
+			q := g.qvar()
+			ba := g.byteAtPure(g.st, a.C[0], g.addI(a.C[1], q))
+			bb := g.byteAtPure(g.st, b.C[0], g.addI(b.C[1], q))
+			r := and(eq(a.C[2], b.C[2]), g.forall(q, implies(and(g.le(g.zeroI(), q), g.lt(q, a.C[2])), eq(ba, bb))))
+			if op == token.NEQ {
+				r = not(r)
+			}
+			return Val{T: boolT, C: []Term{r}}
 		}
 		if _, ok := a.T.Underlying().(*types.Slice); ok {
 			// slice == nil : base == 0 (only nil slices have base 0)
